@@ -275,6 +275,8 @@ where
                 .into_dimensionality::<<D::Smaller as Dimension>::Smaller>()
                 .unwrap_or_else(|_| unreachable!());
 
+            #[cfg(ndarray_interp_verif)]
+            crate::verif_hooks::sched_point("batch:elem");
             self.strategy.interp_into(self, subview, x, y)?;
         }
         Ok(())
@@ -294,6 +296,8 @@ where
             .and(ys)
             .and(buffer.axis_iter_mut(Axis(0)))
             .fold_while(Ok(()), |_, &x, &y, buf| {
+                #[cfg(ndarray_interp_verif)]
+                crate::verif_hooks::sched_point("batch:elem");
                 match self.strategy.interp_into(self, buf, x, y) {
                     Ok(_) => ndarray::FoldWhile::Continue(Ok(())),
                     Err(e) => ndarray::FoldWhile::Done(Err(e)),
